@@ -634,6 +634,17 @@ class SpecEval:
         x = self.eval(args[0])
         return V(f2i_term(self.vc, x.term, x.sort, 'int'), 'Int', 'int')
 
+    def b_deref(self, args):
+        """deref(p): the value a pointer to a scalar cell points to (pointers to struct fields are not expressible)"""
+        from .vcgen import Loc
+        x = self.eval(args[0])
+        if self.st is None or x.ts is None or self.prog.types.get(x.ts, {}).get('k') != 'ptr':
+            self.err('deref of a non-pointer')
+        ets = self.prog.td(x.ts)['elem']
+        if self.prog.under(ets)['k'] == 'struct':
+            self.err('deref of a struct pointer: use field access')
+        return self.vc.load(self.st, Loc('cell', ets, ref=x.term))
+
     def b_ffloor(self, args):
         x = self.eval(args[0])
         return V('(fp.roundToIntegral RTN %s)' % x.term, x.sort, x.ts)
